@@ -25,7 +25,12 @@ rule("C16.m", "a wrapper that extends the variable names of what it wraps treats
               "numbers into the 'var_name' column too (the orders of an order book are numbered)", floor=1)
 
 
-@analysis("scaled", ["C16.a", "C16.b", "C16.c", "C16.g", "C16.m"])
+rule("C16.n", "ScaledAsset: the rows that couple the dispatch to the scale variable (x <= u s/S, x >= l s/S) are appended for every "
+              "parameter set - not only under a condition on the asset's own parameters (the variable bounds are clipped at zero and "
+              "cannot stand in for them when the base band does not contain zero)", floor=2)
+
+
+@analysis("scaled", ["C16.a", "C16.b", "C16.c", "C16.g", "C16.m", "C16.n"])
 def run(ctx):
     p = ctx.p
     fn = p.cls("ScaledAsset").methods.get("setup_optim_problem")
@@ -50,14 +55,32 @@ def run(ctx):
     ctx.ob("C16.a", fn, "one mapping row for the scale variable", len(maprow) == 1, "found %d row insertions" % len(maprow), node=(maprow[0] if maprow else fn.node))
     # row blocks
     blocks = []
-    for i, st in enumerate(fn.body):
-        if isinstance(st, ast.Assign) and au.terminal(st.targets[0]) == "A" and isinstance(st.value, ast.Call) and au.method_name(st.value) == "vstack":
-            eyes = [x for x in au.walk_local(st.value) if isinstance(x, ast.Call) and au.method_name(x) in ("eye", "identity")]
-            if eyes:
-                nxt = fn.body[i + 1: i + 3]
-                bz = [s for s in nxt if isinstance(s, ast.Assign) and au.terminal(s.targets[0]) == "b"]
-                ct = [s for s in nxt if isinstance(s, (ast.AugAssign, ast.Assign)) and au.terminal(au.stmt_targets(s)[0]) == "cType"]
-                blocks.append((st, eyes[0], bz, ct))
+    block_guards = {}
+    for lst, guards in au.stmt_lists(fn.body):
+        for i, st in enumerate(lst):
+            if isinstance(st, ast.Assign) and au.terminal(st.targets[0]) == "A" and isinstance(st.value, ast.Call) and au.method_name(st.value) == "vstack":
+                eyes = [x for x in au.walk_local(st.value) if isinstance(x, ast.Call) and au.method_name(x) in ("eye", "identity")]
+                if eyes:
+                    nxt = lst[i + 1: i + 3]
+                    bz = [s for s in nxt if isinstance(s, ast.Assign) and au.terminal(s.targets[0]) == "b"]
+                    ct = [s for s in nxt if isinstance(s, (ast.AugAssign, ast.Assign)) and au.terminal(au.stmt_targets(s)[0]) == "cType"]
+                    blocks.append((st, eyes[0], bz, ct))
+                    block_guards[id(st)] = guards
+    # ---------------------------------------------------------------- C16.n the coupling rows are there for every parameter set
+    for st, eye, bz, ct in blocks:
+        gs = [g for g in block_guards[id(st)] if g[0] == "if"]
+        par = [g for g in gs if any(isinstance(x, ast.Attribute) and au.base_name(x) == "self" for x in au.walk_local(g[1]))]
+        other = [g for g in gs if g not in par]
+        ok = False if par else (None if other else True)
+        ctx.ob("C16.n", fn, "coupling rows %s" % au.short(st, 50), ok,
+               ("the rows that tie the dispatch to the scale (x <= u s/S, x >= l s/S) are only added under `%s`: the bounds of the dispatch "
+                "variables are min(0, l) and max(0, u) times max_scale / norm_scale - they contain zero, so without the rows a base asset whose "
+                "band does not contain zero (must-take, must-deliver) loses its obligation, whatever the scale parameters are"
+                % au.short(par[0][1], 60)) if par else
+               ("added under `%s`, which this rule does not interpret" % au.short(other[0][1], 60) if other else ""),
+               node=st, ok_detail="appended on every path", key="coupling rows of the %s block are unconditional" % (
+                   {"U": "upper", "L": "lower"}.get(next(iter({x.value for c0 in ct for x in au.walk_local(c0.value)
+                                                          if isinstance(x, ast.Constant) and x.value in ("U", "L")}), "?"), "?")))
     for st, eye, bz, ct in blocks:
         w = au.U(eye.args[0])
         wb = None
